@@ -154,6 +154,8 @@ def run(ctx):  # noqa: C901
     for fn_ in ("ppt_distinguishability.ppt_distinguishability", "ppt_distinguishability._min_error_primal", "ppt_distinguishability._min_error_dual"):
         try:
             r_parallel_families(ctx, m.func(fn_), ["vectors", "probs"])
+            if "._" in fn_:
+                r_effect_free(ctx, m.func(fn_), ["vectors", "probs"])
         except KeyError:
             pass
     og = origins(sh)
